@@ -6,6 +6,7 @@ degenerate rule, stack of chunkers, canonical root), `Model/Mutate.lean` (`Apply
 resynchronisation).  Hash = structural identity of the tree.
 -/
 import DoltVerif.Lemmas.Mutate
+import DoltVerif.Lemmas.LeafRegions
 namespace DoltVerif.C12
 open DoltVerif.Prolly DoltVerif.SortedDict
 
@@ -56,6 +57,18 @@ theorem level_content_preserved (L : LevelCfg σ α) (rs : List (Region α)) (hn
     ((L.incr L.fresh rs).flatMap Out.chunks).flatten = rs.flatMap (·.new) := by
   have := L.incr_flatten rs L.fresh hne hcu
   simpa [LevelCfg.fresh] using this
+
+/-- **The leaf level of `ApplyMutations` sees exactly the edited dictionary**: handing every leaf
+the edits up to its last key (the last leaf also those beyond) and applying them leaf by leaf is
+applying the whole sorted batch to the whole content — for every total-preorder comparator, any
+number of non-empty leaves with strictly sorted content, any batch.  With `level_canonical` /
+`level_content_preserved` this is the level-0 instance of "the edited tree holds the edited
+content". -/
+theorem leaf_partition {κ ν : Type} [BEq κ] [BEq ν] [Inhabited κ] {cmp : κ → κ → Ordering}
+    (hc : TotalPreorder cmp) (leaves : List (NodeH κ ν 0)) (es : Edits κ ν) (hne : leaves ≠ [])
+    (hleaf : ∀ l ∈ leaves, l ≠ []) (hs : Sorted cmp (leaves.flatten : List (κ × ν))) :
+    ((leafRegions cmp leaves es false).flatMap (·.new) : List (κ × ν)) = applyEdits cmp leaves.flatten es :=
+  leafRegions_content hc leaves es false hne hleaf hs
 
 /-- **History independence at one level.**  Two edit histories over possibly different old node
 lists (different ancestors, different batching, different resync points) that arrive at the same
